@@ -51,7 +51,8 @@ MEANING_TOL = 1e-6               # saved terms vs the physical model
 APPLY_FLOOR = 1e-8
 
 SHAPES = ["empty", "adds", "adds", "replace", "del-first", "del-mid",
-          "del-last", "del-all", "del-add", "alias", "mixed", "mixed"]
+          "del-last", "del-all", "del-add", "alias", "mixed", "mixed",
+          "del-replace", "del-replace"]
 EDGE_PREC = [1, 2, 3, 5, 6, 7, 8, 15, 16, 17, 18, 23, 24, 25, 26, 30, 39, 40]
 
 
@@ -365,6 +366,18 @@ def gen_case(rng, forced_type=None, forced_shape=None, pool=None):
         if rng.random() < 0.5 and live:
             delete(live[int(rng.integers(0, len(live)))])
             add()
+    elif sh == "del-replace":
+        # a hole below a live calibration whose name is then added again:
+        # the replacement must take the place of the old one, not the hole
+        for _ in range(int(rng.integers(2, 6))):
+            add()
+        if len(live) >= 2:
+            k = int(rng.integers(0, len(live) - 1))
+            above = live[k + 1:]
+            delete(live[k])
+            add(name=above[int(rng.integers(0, len(above)))].name)
+            if rng.random() < 0.4:
+                add()
     elif sh == "alias":
         e = add()
         if e is not None:
@@ -689,6 +702,23 @@ def judge1(cs, text, L, res, part, rng):
             for qn in (e.name for e in cs.live)):
         bump("skipped_history_not_as_modelled")
         part["inconclusive"].append(dict(key="history-not-as-modelled"))
+        # the table is not what the history should have produced (C16's
+        # matter), but whatever the vnacal_t holds must still survive save
+        # and load: names in order, types, dimensions, frequencies
+        d1 = ev("dump1")
+        ld = ev("load")
+        if d1 is not None and "out" in d1 and ld is not None and \
+                ld.get("ret") is not None:
+            a = [(sl["name"], sl["type"], sl["rows"], sl["cols"], sl["F"])
+                 for sl in orig]
+            b = [(sl["name"], sl["type"], sl["rows"], sl["cols"], sl["F"])
+                 for sl in live_slots(d1["out"])]
+            bump("model_free_round_trips")
+            if a != b:
+                bad("table-differs-after-load",
+                    "the vnacal_t held %s before vnacal_save and holds %s "
+                    "after vnacal_load of that file" % (a, b))
+                return True
         return None
     by_name = {e.name.encode("utf-8").decode("latin-1"): e for e in cs.live}
     holes = sum(1 for sl in d0["out"]["slots"] if sl is None)
